@@ -97,6 +97,26 @@ package ipfslog
 // storedLog(l): the block of every entry and head of the log is in the block store (C17)
 //@ define storedLog(l *IPFSLog) = (forall k string :: has(om(l.Entries).values, k) ==> stored[om(l.Entries).values[k].Hash]) && (forall k string :: has(om(l.heads).values, k) ==> stored[om(l.heads).values[k].Hash])
 
+// ---- C02 / C01 / C03 vocabulary (facet wf): the structural invariant of a log built by appends and unbounded merges ----
+// ent/idx/hds: the three index maps.  idx maps a hash to an entry of the log that names it as predecessor.
+//@ define ent(l *IPFSLog) = om(l.Entries).values
+//@ define idx(l *IPFSLog) = om(l.Next).values
+//@ define hds(l *IPFSLog) = om(l.heads).values
+// every predecessor named by an entry of the log is recorded in the reverse index, and every record is justified
+//@ define idxComplete(l *IPFSLog) = forall k string, j int :: has(ent(l), k) && 0 <= j && j < len(ent(l)[k].Next) ==> has(idx(l), str(ent(l)[k].Next[j]))
+//@ define idxSound(l *IPFSLog) = forall n string :: has(idx(l), n) ==> validEntry(idx(l)[n]) && has(ent(l), ehash(idx(l)[n])) && ent(l)[ehash(idx(l)[n])] == idx(l)[n] && names(idx(l)[n], n)
+// heads are entries; no head is recorded as referenced; every entry not recorded as referenced is a head
+//@ define headsIn(l *IPFSLog) = forall k string :: has(hds(l), k) ==> has(ent(l), k) && ent(l)[k] == hds(l)[k]
+//@ define headsUnref(l *IPFSLog) = forall k string :: has(hds(l), k) ==> !has(idx(l), k)
+//@ define headsAll(l *IPFSLog) = forall k string :: has(ent(l), k) && !has(idx(l), k) ==> has(hds(l), k)
+// predecessor-closed, hash links ranked (acyclic), one log id
+//@ define closedLog(l *IPFSLog) = forall k string, j int :: has(ent(l), k) && 0 <= j && j < len(ent(l)[k].Next) ==> has(ent(l), str(ent(l)[k].Next[j]))
+//@ define rankedLog(l *IPFSLog) = forall k string, j int :: has(ent(l), k) && 0 <= j && j < len(ent(l)[k].Next) ==> rank(str(ent(l)[k].Next[j])) < rank(k)
+//@ define oneLogID(l *IPFSLog) = forall k string :: has(ent(l), k) ==> ent(l)[k].LogID == l.ID
+//@ define wfLog(l *IPFSLog) = idxComplete(l) && idxSound(l) && headsIn(l) && headsUnref(l) && headsAll(l) && closedLog(l) && rankedLog(l) && oneLogID(l)
+// the property itself (C02), stated over the predecessor lists and not over the index
+//@ define headsExact(l *IPFSLog) = (forall k string :: has(hds(l), k) ==> has(ent(l), k) && ent(l)[k] == hds(l)[k] && notNamedIn(l.Entries, k)) && (forall k string :: has(ent(l), k) ==> has(hds(l), k) || namedIn(l.Entries, k))
+
 // ---- Append (C04, C02, C05, C06-denial) ----
 //@ define headHashIn(l *IPFSLog, k string) = has(om(l.heads).values, k)
 //@ func (*IPFSLog).Append
@@ -118,6 +138,20 @@ package ipfslog
 //@   ensures [skip-references-default-pointer-count] err == nil && (opts == nil || opts.PointerCount == 0) ==> len(result0.Refs) <= 2
 //@   ensures [skip-references-are-not-predecessors] err == nil ==> forall i int, j int :: 0 <= i && i < len(result0.Refs) && 0 <= j && j < len(result0.Next) ==> result0.Refs[i] != result0.Next[j]
 //@   ensures [skip-references-are-entries-of-the-log] err == nil ==> forall i int, k string :: 0 <= i && i < len(result0.Refs) && k == str(result0.Refs[i]) ==> old(has(om(l.Entries).values, k)) || old(has(om(l.heads).values, k))
+//@ @wf requires wfLog(l)
+//@ @wf assert "l.Entries.Set(e.GetHash().String(), e)" [no-indexed-entry-has-the-new-hash] forall n string :: old(has(idx(l), n)) ==> ehash(old(idx(l)[n])) != ehash(e)
+//@ @wf assert "l.heads = entry.NewOrderedMapFromEntries([]iface.IPFSLogEntry{e})" [old-heads-are-now-referenced] forall k string :: old(has(hds(l), k)) ==> has(idx(l), k)
+//@ @wf assert "l.heads = entry.NewOrderedMapFromEntries([]iface.IPFSLogEntry{e})" [no-other-record-has-the-new-hash] forall n string :: has(idx(l), n) ==> ehash(idx(l)[n]) != ehash(e) || idx(l)[n] == e
+//@ @wf ensures [append-keeps-the-reverse-index-complete] idxComplete(l)
+//@ @wf ensures [append-keeps-the-reverse-index-sound] idxSound(l)
+//@ @wf ensures [append-keeps-heads-among-the-entries] headsIn(l)
+//@ @wf ensures [append-keeps-heads-unreferenced] headsUnref(l)
+//@ @wf ensures [append-keeps-every-unreferenced-entry-a-head] headsAll(l)
+//@ @wf ensures [append-keeps-the-log-predecessor-closed] closedLog(l)
+//@ @wf ensures [append-keeps-hash-links-ranked] rankedLog(l)
+//@ @wf ensures [append-keeps-one-log-id] oneLogID(l)
+//@ @wf ensures [heads-are-exactly-the-unreferenced-entries] headsExact(l)
+//@ @wf ensures [log-with-entries-has-a-head] len(om(l.Entries).keys) > 0 && err == nil ==> len(om(l.heads).keys) > 0
 //@   ensures [appended-entry-is-the-single-head] err == nil ==> forall k string :: has(om(l.heads).values, k) <==> k == ehash(result0)
 //@   ensures [appended-entry-is-in-the-log] err == nil ==> inMap(l.Entries, result0) && inMap(l.heads, result0)
 //@   ensures [append-keeps-every-entry] forall k string :: old(has(om(l.Entries).values, k)) ==> has(om(l.Entries).values, k) && (k != ehash(result0) || err != nil ==> om(l.Entries).values[k] == old(om(l.Entries).values[k]))
@@ -147,6 +181,9 @@ package ipfslog
 //@     invariant isOM(l.Next) && omInv(om(l.Entries)) && sepMaps(l)
 //@     invariant storedLog(l) && stored[e.Hash]
 //@     invariant forall k string :: has(om(l.Entries).values, k) == has(old(om(l.Entries).values), k) || k == ehash(e)
+//@ @wf invariant [index-records-are-old-or-processed-links-of-the-new-entry] forall n string :: has(idx(l), n) ==> (old(has(idx(l), n)) && idx(l)[n] == old(idx(l)[n])) || (idx(l)[n] == e && (exists i int :: 0 <= i && i < $k && n == str(next[i])))
+//@ @wf invariant [index-keeps-old-records] forall n string :: old(has(idx(l), n)) ==> has(idx(l), n)
+//@ @wf invariant [index-records-processed-links] forall i int :: 0 <= i && i < $k ==> has(idx(l), str(next[i]))
 //@     loopmodifies om(l.Next).keys, mapof(om(l.Next).values)
 
 // ---- read accessors (C13: every guarded access happens under l.lock; C05: accessors hand out copies) ----
